@@ -5,6 +5,8 @@ import (
 	"context"
 	"fmt"
 
+	"github.com/ThreeDotsLabs/watermill/message"
+
 	"verif/explore"
 	"verif/harness/hx"
 	"verif/harness/reg"
@@ -14,9 +16,17 @@ import (
 // scenario: P publishers x M messages and S subscriptions, all started concurrently on topic "t";
 // one decoy message on topic "d". Consumers always Ack. Oracle at quiescence, before Close.
 func scenario(cfg hx.GCfg, P, M, S, c int, preSub bool) *explore.Scenario {
+	return scenarioB(cfg, P, M, S, c, preSub, false)
+}
+
+// batch: each publisher hands its M messages to a single Publish call.
+func scenarioB(cfg hx.GCfg, P, M, S, c int, preSub bool, batch bool) *explore.Scenario {
 	name := fmt.Sprintf("%s/P%dxM%d/S%d", cfg, P, M, S)
 	if preSub {
 		name += "/presub"
+	}
+	if batch {
+		name += "/batch"
 	}
 	return &explore.Scenario{
 		Name: name, C: c,
@@ -60,6 +70,21 @@ func scenario(cfg hx.GCfg, P, M, S, c int, preSub bool) *explore.Scenario {
 			for p := 0; p < P; p++ {
 				p := p
 				go func() {
+					if batch {
+						var ms []*message.Message
+						var us []string
+						for i := 0; i < M; i++ {
+							m := hx.Msg(fmt.Sprintf("p%dm%d", p, i))
+							ms = append(ms, m)
+							us = append(us, m.UUID)
+						}
+						if err := g.Publish("t", ms...); err == nil {
+							published[p] = append(published[p], us...)
+						} else {
+							vs.Fail("publish-error", "Publish on open Pub/Sub failed: %v", err)
+						}
+						return
+					}
 					for i := 0; i < M; i++ {
 						m := hx.Msg(fmt.Sprintf("p%dm%d", p, i))
 						if err := g.Publish("t", m); err == nil {
@@ -119,6 +144,18 @@ func init() {
 		add(reg.Quick, 5, 1, 1, 2, 2, 3, false)
 		add(reg.Quick, 5, 2, 1, 1, 2, 3, false)
 		add(reg.Quick, 5, 1, 1, 2, 2, 3, true)
+		addB := func(tier reg.Tier, w, P, M, S, cq, ct int, pre bool) {
+			sc := scenarioB(cfg, P, M, S, cq, pre, true)
+			reg.AddW("C11", sc.Name, tier, w, func(t reg.Tier) *explore.Scenario {
+				if t == reg.Thorough {
+					return scenarioB(cfg, P, M, S, ct, pre, true)
+				}
+				return scenarioB(cfg, P, M, S, cq, pre, true)
+			})
+		}
+		addB(reg.Quick, 5, 1, 2, 1, 2, 4, false)
+		addB(reg.Quick, 8, 1, 2, 2, 2, 3, true)
+		addB(reg.Thorough, 30, 2, 2, 2, 1, 2, true)
 		add(reg.Thorough, 20, 2, 1, 2, 2, 2, false)
 		add(reg.Thorough, 20, 1, 2, 2, 2, 2, true)
 		add(reg.Thorough, 30, 2, 2, 1, 2, 2, false)
